@@ -1,1 +1,191 @@
-import Simfile.Model.Mutate
+/-
+C05 — `open_with_detected_encoding` / `open` / `mutate`: which encoding is detected, what a fault-free
+`mutate` writes and in which order.
+Vocabulary (Simfile/Lemmas/Mutate.lean):
+  `Mut.NoClash c`  : `∀ b, given c.backup = some b → b ≠ c.input ∧ some b ≠ c.output`
+  `Mut.writeSide`  : `openW`, `write`, `close` (everything except `openR`)
+  `Mut.opPath`     : the path an op acts on
+-/
+import Simfile.Gen.Tables
+import Simfile.Lemmas.Mutate
+namespace Simfile.C05
+open Simfile Simfile.Mut
+
+/-! ### 1. encoding detection -/
+
+/-- the detected encoding is the first tried one under which the file decodes -/
+theorem detect_first (tries : List (Str × Bool)) (e : Str) :
+    detectEncoding tries = some e ↔
+      ∃ pre post, tries = pre ++ (e, true) :: post ∧ ∀ x ∈ pre, x.2 = false :=
+  detect_some_iff tries e
+
+theorem detect_none (tries : List (Str × Bool)) :
+    detectEncoding tries = none ↔ ∀ x ∈ tries, x.2 = false :=
+  detect_none_iff tries
+
+/-- an explicit `encoding=` is the only encoding tried -/
+theorem explicit_single (e : Str) (l : List Str) : triedEncodings (some e) l = [e] := rfl
+
+theorem no_explicit (l : List Str) : triedEncodings none l = l := rfl
+
+theorem default_list :
+    T.encodings = ["utf-8".toList, "cp1252".toList, "cp932".toList, "cp949".toList] := by decide
+
+/-- the detection loop opens the input once per tried encoding up to and including the first success -/
+theorem reads_until_success (input : Str) (pre post : List (Str × Bool)) (e : Str)
+    (hpre : ∀ x ∈ pre, x.2 = false) :
+    readOps input (pre ++ (e, true) :: post) = (pre.map fun x => FsOp.openR input x.1) ++ [FsOp.openR input e] := by
+  induction pre with
+  | nil => simp [readOps]
+  | cons x pre ih =>
+    obtain ⟨e0, ok⟩ := x
+    have h0 : ok = false := hpre (e0, ok) (by simp)
+    subst h0
+    simp [readOps, ih (fun x hx => hpre x (by simp [hx]))]
+
+/-! ### 2. a clashing backup name is refused before any filesystem call -/
+
+theorem clash_refused (c : MutateCfg) (tries : List (Str × Bool)) (body : Body) (problem : SaveProblem)
+    (b : Str) (h : given c.backup = some b ∧ (b = c.input ∨ some b = c.output)) :
+    mutate c tries body problem = (.valueError, []) :=
+  mutate_of_clash h.1 h.2 tries body problem
+
+/-- conversely `ValueError` is raised only for a clash -/
+theorem valueError_iff_clash (c : MutateCfg) (tries : List (Str × Bool)) (body : Body) (problem : SaveProblem) :
+    (mutate c tries body problem).1 = .valueError ↔ ¬ NoClash c := by
+  constructor
+  · intro h hnc
+    rw [mutate_of_noClash hnc] at h
+    unfold mutate.go at h
+    split at h
+    · cases h
+    · cases body <;> cases problem <;> cases h
+  · intro h
+    obtain ⟨b, hb, h⟩ := not_noClash h
+    rw [mutate_of_clash hb h]
+
+/-! ### 3. an undecodable input -/
+
+theorem undecodable (c : MutateCfg) (tries : List (Str × Bool)) (body : Body) (problem : SaveProblem)
+    (hnc : NoClash c) (hdet : detectEncoding tries = none) :
+    mutate c tries body problem = (.unicodeDecodeError, readOps c.input tries) ∧
+    (∀ op ∈ (mutate c tries body problem).2,
+      (∀ p e, op ≠ .openW p e) ∧ (∀ p, op ≠ .write p) ∧ (∀ p, op ≠ .close p)) ∧
+    (mutate c tries body problem).2 = tries.map fun x => FsOp.openR c.input x.1 := by
+  have h : mutate c tries body problem = (.unicodeDecodeError, readOps c.input tries) := by
+    rw [mutate_of_noClash hnc]
+    unfold mutate.go
+    rw [hdet]
+  refine ⟨h, ?_, ?_⟩
+  · rw [h]
+    intro op hop
+    obtain ⟨e, rfl⟩ := readOps_all_openR _ _ op hop
+    refine ⟨?_, ?_, ?_⟩ <;> intros <;> simp
+  · rw [h]
+    exact readOps_all_false _ _ ((detect_none_iff tries).mp hdet)
+
+/-! ### 4. the effect of a fault-free `mutate` -/
+
+theorem mutate_effect (c : MutateCfg) (tries : List (Str × Bool)) (enc : Str)
+    (hnc : NoClash c) (hdet : detectEncoding tries = some enc) :
+    mutate c tries .returns .none = (.returned, readOps c.input tries ++ saveOps c enc) ∧
+    ∀ fs : List (Str × Content),
+      let fs' := runWrites fs (given c.backup) (readOps c.input tries ++ saveOps c enc) none
+      lookupContent fs' c.outPath = some (.written false) ∧
+      (∀ b, given c.backup = some b → lookupContent fs' b = some (.written true)) ∧
+      (∀ p, p ≠ c.outPath → some p ≠ given c.backup → lookupContent fs' p = lookupContent fs p) := by
+  constructor
+  · rw [mutate_of_noClash hnc]
+    unfold mutate.go
+    rw [hdet]
+  · intro fs
+    simp only
+    rw [runWrites_readOps]
+    refine ⟨?_, ?_, ?_⟩
+    · cases hb : given c.backup with
+      | none =>
+        rw [saveOps_none' hb, lookup_run_block_none]
+        simp
+      | some b =>
+        have hne := backup_ne_outPath hnc hb
+        rw [saveOps_some' hb, runWrites_append_none, lookup_run_block_none]
+        simp [hne]
+    · intro b hb
+      have hne := backup_ne_outPath hnc hb
+      rw [hb, saveOps_some' hb, runWrites_append_none, lookup_run_block_ne _ _ _ _ _ (Ne.symm hne),
+        lookup_run_block_none]
+      simp
+    · intro p hp hpb
+      apply runWrites_frame
+      intro op hop _
+      rcases saveOps_path c enc op hop with h | h
+      · rw [h]; exact Ne.symm hp
+      · intro he
+        apply hpb
+        rw [h, he]
+
+/-- in particular the input keeps its content when an output name different from it was given -/
+theorem input_kept_when_output_given (c : MutateCfg) (tries : List (Str × Bool)) (enc : Str) (o : Str)
+    (hnc : NoClash c) (hdet : detectEncoding tries = some enc)
+    (ho : given c.output = some o) (hoi : o ≠ c.input) (fs : List (Str × Content)) :
+    lookupContent (runWrites fs (given c.backup) (mutate c tries .returns .none).2 none) c.input =
+      lookupContent fs c.input := by
+  obtain ⟨h1, h2⟩ := mutate_effect c tries enc hnc hdet
+  rw [h1]
+  apply (h2 fs).2.2
+  · rw [outPath_of_some ho]; exact Ne.symm hoi
+  · intro h
+    exact (hnc c.input h.symm).1 rfl
+
+/-- pairwise distinct paths stay pairwise distinct -/
+theorem paths_stay_distinct (fs : List (Str × Content)) (b : Option Str) (ops : List FsOp) (k : Option Nat)
+    (h : (fs.map (·.1)).Nodup) : ((runWrites fs b ops k).map (·.1)).Nodup :=
+  nodup_runWrites b ops fs k h
+
+/-! ### 5. the backup is written and closed before the output is opened -/
+
+theorem write_order (c : MutateCfg) (enc : Str) (b : Str) (hnc : NoClash c) (hb : given c.backup = some b) :
+    saveOps c enc = [FsOp.openW b enc, FsOp.write b, FsOp.close b] ++
+      [FsOp.openW c.outPath enc, FsOp.write c.outPath, FsOp.close c.outPath] ∧
+    ∀ (i j : Nat) (op₁ op₂ : FsOp), (saveOps c enc)[i]? = some op₁ → (saveOps c enc)[j]? = some op₂ →
+      opPath op₁ = b → opPath op₂ = c.outPath → i < j := by
+  have hne := backup_ne_outPath hnc hb
+  refine ⟨saveOps_some hb enc, ?_⟩
+  intro i j op₁ op₂ h1 h2 hp1 hp2
+  rw [saveOps_some' hb] at h1 h2
+  have hi : i < (block b enc).length :=
+    idx_lt_of_not_post _ _ (fun op => opPath op = b)
+      (fun y hy h => hne (by rw [← h, block_path _ _ y hy])) h1 hp1
+  have hj : (block b enc).length ≤ j :=
+    idx_ge_of_not_pre _ _ (fun op => opPath op = c.outPath)
+      (fun y hy h => hne (by rw [← h, block_path _ _ y hy])) h2 hp2
+  omega
+
+/-- without a backup only the output is touched -/
+theorem write_only_output (c : MutateCfg) (enc : Str) (hb : given c.backup = none) :
+    saveOps c enc = [FsOp.openW c.outPath enc, FsOp.write c.outPath, FsOp.close c.outPath] :=
+  saveOps_none hb enc
+
+/-! ### non-vacuity -/
+
+def cfg0 : MutateCfg := ⟨"a.sm".toList, none, some "a.bak".toList⟩
+def cfg1 : MutateCfg := ⟨"a.sm".toList, some "b.ssc".toList, some "a.bak".toList⟩
+def cfgClash : MutateCfg := ⟨"a.sm".toList, some "b.ssc".toList, some "b.ssc".toList⟩
+def tries0 : List (Str × Bool) := [("utf-8".toList, false), ("cp1252".toList, true)]
+def triesBad : List (Str × Bool) := [("utf-8".toList, false), ("cp1252".toList, false)]
+def fs0 : List (Str × Content) := [("a.sm".toList, .original), ("other".toList, .original)]
+
+example : detectEncoding tries0 = some "cp1252".toList := by decide +kernel
+example : detectEncoding triesBad = none := by decide +kernel
+example : NoClash cfg0 := by decide +kernel
+example : NoClash cfg1 := by decide +kernel
+example : given cfgClash.backup = some "b.ssc".toList ∧
+    ("b.ssc".toList = cfgClash.input ∨ some "b.ssc".toList = cfgClash.output) := by decide +kernel
+example : ¬ NoClash cfgClash := by decide +kernel
+example : given cfg1.output = some "b.ssc".toList ∧ "b.ssc".toList ≠ cfg1.input := by decide +kernel
+example : given cfg0.backup = some "a.bak".toList := by decide +kernel
+example : (mutate cfg0 tries0 .returns .none).2.length = 8 := by decide +kernel
+example : lookupContent (runWrites fs0 (given cfg1.backup) (mutate cfg1 tries0 .returns .none).2 none)
+    "a.sm".toList = some .original := by decide +kernel
+
+end Simfile.C05
